@@ -443,6 +443,73 @@ theorem propagateAll_ext (e : Engine) (hi : WMInv e.wm) (hq : Quiet e.rules) :
   simp only [Bool.and_eq_true, beq_iff_eq] at hty
   exact addMatches_good e.wm hi e.rules hq rule hm.1 ty hty.1 p'
 
+theorem mem_dedup : ∀ (l : List Nat) (x : Nat), x ∈ l → x ∈ dedup l := by
+  intro l
+  induction l with
+  | nil => intro x hx; simp at hx
+  | cons y t ih =>
+    intro x hx
+    simp only [dedup]
+    rcases List.mem_cons.1 hx with h | h
+    · subst h
+      split
+      · rename_i hc; simpa using hc
+      · simp
+    · split
+      · exact ih x h
+      · exact List.mem_cons_of_mem _ (ih x h)
+
+/-- `foldl_complete` for a step that looks at the fired set (which no step changes) -/
+theorem foldl_complete_fired {α : Type} (P : Act → Prop) (step : Agenda × Nat → α → Agenda × Nat) (l : List α)
+    (hstep : ∀ p, ∀ x ∈ l, Ext P p.1 (step p x).1) (F : List Nat) (Q : Act → Prop) (x : α) (hx : x ∈ l)
+    (hq : ∀ p, p.1.fired = F → ∃ a ∈ (step p x).1.acts, Q a) :
+    ∀ p, p.1.fired = F → ∃ a ∈ (l.foldl step p).1.acts, Q a := by
+  induction l with
+  | nil => simp at hx
+  | cons y ys ih =>
+    intro p hp
+    simp only [List.foldl_cons]
+    rcases List.mem_cons.1 hx with h | h
+    · subst h
+      obtain ⟨a, ha, hqa⟩ := hq p hp
+      exact ⟨a, (foldl_ext P step ys (fun p y hy => hstep p y (List.mem_cons_of_mem _ hy)) _).mono a ha, hqa⟩
+    · exact ih (fun p y hy => hstep p y (List.mem_cons_of_mem _ hy)) h _ ((hstep p y (by simp)).2.2.1.trans hp)
+
+/-- the global re-propagation after a firing is complete: every rule that has not fired, on every live fact of its type that
+satisfies it, gets a pending activation -/
+theorem propagateAll_complete (e : Engine) (hi : WMInv e.wm) (hq : Quiet e.rules) :
+    ∀ r ∈ e.rules, r.name ∉ e.ag.fired → ∀ f ∈ e.wm.getAllFacts, f.ty = r.ty → r.node.eval f.ty f.data = true →
+      ∃ a ∈ e.propagateAll.ag.acts, a.rule = r.name ∧ a.handle = some f.handle := by
+  intro r hr hnf f hf hty hev
+  unfold Engine.propagateAll
+  simp only
+  have hstep : ∀ (p : Agenda × Nat), ∀ ty ∈ dedup (e.wm.getAllFacts.map (·.ty)),
+      Ext (GoodAct e.wm e.rules) p.1
+        ((e.rules.filter (fun rule => rule.ty == ty && !(rule.noLoop && p.1.fired.contains rule.name))).foldl
+          (fun p rule => addMatches rule (e.wm.getByType ty) p) p).1 := by
+    intro p ty _
+    apply foldl_ext (GoodAct e.wm e.rules) _ _ _ p
+    intro p' rule hrule
+    have hm := List.mem_filter.1 hrule
+    have hty := hm.2
+    simp only [Bool.and_eq_true, beq_iff_eq] at hty
+    exact addMatches_good e.wm hi e.rules hq rule hm.1 ty hty.1 p'
+  apply foldl_complete_fired (GoodAct e.wm e.rules) _ _ hstep e.ag.fired
+    (fun a => a.rule = r.name ∧ a.handle = some f.handle) f.ty
+    (mem_dedup _ _ (List.mem_map.2 ⟨f, hf, rfl⟩)) _ (e.ag, e.clock) rfl
+  intro p hp
+  have hmem : r ∈ e.rules.filter (fun rule => rule.ty == f.ty && !(rule.noLoop && p.1.fired.contains rule.name)) := by
+    apply List.mem_filter.2
+    refine ⟨hr, ?_⟩
+    have hc : r.name ∉ p.1.fired := by rw [hp]; exact hnf
+    simp [hty, hc]
+  apply foldl_complete (fun _ => True) _ _ _ (fun a => a.rule = r.name ∧ a.handle = some f.handle) r hmem _ p
+  · intro p' rule hrule
+    exact addMatches_ext _ rule (hq rule (List.mem_filter.1 hrule).1).2.2 _ (fun _ _ _ _ _ => trivial) p'
+  · intro p'
+    obtain ⟨k1, k2⟩ := (getAllFacts_iff e.wm f).1 hf
+    exact addMatches_complete r (hq r hr).2.2 _ p' f ((getByType_iff hi f.ty f).2 ⟨k1, rfl, k2⟩) hev
+
 theorem propagateType_ext (e : Engine) (hi : WMInv e.wm) (hq : Quiet e.rules) (ty : Nat) :
     Ext (GoodAct e.wm e.rules) e.ag (e.propagateType ty).ag := by
   unfold Engine.propagateType
@@ -512,6 +579,7 @@ structure LoopPost (rules : List Rule) (w : WM) (e e' : Engine) (new : List Firi
   cover : ∀ r ∈ rules, ∀ f ∈ w.getAllFacts, r.node.eval f.ty f.data = true →
     (∃ a ∈ e.ag.acts, a.rule = r.name ∧ a.handle = some f.handle) → r.name ∈ e'.ag.fired
   first : new ≠ [] → ∃ y ∈ new, ∃ a ∈ e.ag.acts, a.rule = y.rule ∧ a.handle = some y.handle
+  after : new ≠ [] → ∀ r ∈ rules, ∀ f ∈ w.getAllFacts, f.ty = r.ty → r.node.eval f.ty f.data = true → r.name ∈ e'.ag.fired
 
 theorem not_fired_of_eligible {g : Agenda} {a : Act} (hp : Plain a) (he : C07.eligible g a = true) : a.rule ∉ g.fired := by
   rw [eligible_plain hp] at he
@@ -626,7 +694,7 @@ theorem fireLoop_exact (rules : List Rule) (w : WM) (hq : Quiet rules) (hn : (ru
     rw [hsk] at i1 i2 i3 i4 i6
     simp only at i1 i2 i3 i4
     obtain ⟨j1, j2⟩ := i6 rfl
-    refine ⟨i1.trans hw, i2.trans hr, i3, j1, by simp, by simp [i4], by simp, by simp, ?_, by simp⟩
+    refine ⟨i1.trans hw, i2.trans hr, i3, j1, by simp, by simp [i4], by simp, by simp, ?_, by simp, by simp⟩
     intro r hr' f hf hev ⟨x, hx, h2, h3⟩
     rcases j2 x hx with h | h
     · rw [i4, ← h2]; exact fired_of_not_eligible (hag.plain x hx) h
@@ -717,7 +785,7 @@ theorem fireLoop_exact (rules : List Rule) (w : WM) (hq : Quiet rules) (hn : (ru
           · exact Or.inl (Or.inl h)
           · exact Or.inr h
       refine ⟨{ rule := r.name, handle := hdl, data := f.data } :: new, by rw [h1]; simp, P.wm, P.rules_eq, P.ag,
-        P.drained, ?_, ?_, ?_, ?_, ?_, ?_⟩
+        P.drained, ?_, ?_, ?_, ?_, ?_, ?_, ?_⟩
       · simp only [List.map_cons, List.nodup_cons]
         refine ⟨?_, P.nodup⟩
         intro hmem
@@ -750,6 +818,20 @@ theorem fireLoop_exact (rules : List Rule) (w : WM) (hq : Quiet rules) (hn : (ru
         · rw [hw, hr, good_not_stale hi hn r' hr' f' hf' h2 h3 hev] at h4; simp at h4
       · intro _
         exact ⟨{ rule := r.name, handle := hdl, data := f.data }, by simp, a, k1, hrn.symm, q2⟩
+      · -- after this firing the global re-propagation has queued every unfired rule on every live fact that satisfies it
+        intro _ r' hr' f' hf' hty' hev'
+        rw [hfi]
+        by_cases hfd : r'.name ∈ (e1.propagateAll.ag.mark a).fired
+        · rw [hfired2, C07.mem_setInsert] at hfd
+          rcases hfd with h | h
+          · exact Or.inr (Or.inl h)
+          · exact Or.inl h
+        · have hnf1 : r'.name ∉ e1.ag.fired := by
+            intro hc; apply hfd; rw [hfired2, C07.mem_setInsert]; right; rw [← i4]; exact hc
+          obtain ⟨x, hx, h2, h3⟩ := propagateAll_complete e1 (by rw [hw1]; exact hi) (by rw [hr1]; exact hq) r'
+            (by rw [hr1]; exact hr') hnf1 f' (by rw [hw1]; exact hf') hty' hev'
+          have := P.cover r' hr' f' hf' hev' ⟨x, by rw [hacts2]; exact hx, h2, h3⟩
+          exact (hfi _).1 this
 
 /-! ### histories: the structural invariant (all operations, `fire_all` included) -/
 
